@@ -54,3 +54,12 @@ func (ws *withSnapshot[SnapT, OpT]) Commit(repo repository.ClockedRepo) error {
 
 	return nil
 }
+
+// CommitAsNeeded intercept Bug.CommitAsNeeded(): it has to go through Commit above, not
+// through the promoted method of the wrapped entity, or a failed commit leaves a stale snapshot.
+func (ws *withSnapshot[SnapT, OpT]) CommitAsNeeded(repo repository.ClockedRepo) error {
+	if !ws.Interface.NeedCommit() {
+		return nil
+	}
+	return ws.Commit(repo)
+}
